@@ -1,5 +1,6 @@
 import Driver.Util
 import DoitModel.Model.DelayedSel
+import Driver.DelayedX
 open Lean DoitModel.Delayed
 namespace Driver.Delayed
 /-! Handler for `{"model":"delayed", …}` (protocol: harness/props/c15.py docstring).
@@ -49,6 +50,12 @@ def parseNew (j : Json) : NewTask :=
   { name := jnat j "name", deps := jnats j "deps", fileDep := jnats j "fileDep", targets := jnats j "targets",
     act := jbool j "act" }
 
+/-- the same yield for the extended model (`Model/DelayedX.lean`): `tdeps` = the task_dep alone, `setup` = setup-tasks
+    and sources of getargs, `calcDep`; (`deps` above also holds these edges, for the monitors' dependency table) -/
+def parseNewX (j : Json) : NewTask :=
+  { name := jnat j "name", deps := jnats j "tdeps", fileDep := jnats j "fileDep", targets := jnats j "targets",
+    act := jbool j "act", setup := jnats j "setup", calcDep := jnats j "calcDep", wild := jnats j "wild" }
+
 structure Case where
   pre : Pre
   makeTab : List (CId × Nat × List NewTask)
@@ -58,6 +65,10 @@ structure Case where
   utd : List Nat
   fails : List Nat
   noAct : List Nat
+  x : Bool := false                                  -- extended model (setup / calc_dep / getargs of created tasks)
+  makeTabX : List (CId × Nat × List NewTask) := []
+  delivers : List (Nat × List Nat) := []
+  wmatch : List (Nat × List Nat) := []               -- pattern id ↦ the names it matches
 
 def mkMake (tab : List (CId × Nat × List NewTask)) (c : CId) (t : Nat) : List NewTask :=
   match tab.find? (fun e => e.1 == c && e.2.1 == t) with
@@ -88,11 +99,23 @@ def parseCase (j : Json) : Case :=
     | .ok (.arr a) => some (a.toList.map fun x => ({ w := jnat x "w", base := jnat x "base" } : Word))
     | _ => none
   { pre := pre, makeTab := makeTab, sel := sel, serial := jbool j "serial", cont := jbool j "cont",
-    utd := jnats j "utd", fails := jnats j "fails", noAct := jnats j "noAct" }
+    utd := jnats j "utd", fails := jnats j "fails", noAct := jnats j "noAct",
+    x := jbool j "x",
+    makeTabX := (jarr j "make").map fun x => match asArr x with
+      | [c, t, l] => (asNat c, asNat t, (asArr l).map parseNewX)
+      | _ => (0, 0, []),
+    delivers := (jarr j "delivers").map fun x => match asArr x with
+      | [a, l] => (asNat a, (asArr l).map asNat)
+      | _ => (0, []),
+    wmatch := (jarr j "wmatch").map fun x => match asArr x with
+      | [a, l] => (asNat a, (asArr l).map asNat)
+      | _ => (0, []) }
 
 def inputOf (c : Case) (st : FState) : Input :=
-  toInput c.pre st (mkMake c.makeTab) c.serial c.cont (fun n => c.utd.contains n) (fun n => c.fails.contains n)
-    (fun n => c.noAct.contains n)
+  { toInput c.pre st (mkMake (if c.x then c.makeTabX else c.makeTab)) c.serial c.cont (fun n => c.utd.contains n)
+      (fun n => c.fails.contains n) (fun n => c.noAct.contains n) with
+    delivers := fun n => (lookup0 c.delivers n).getD [],
+    wmatch := fun p n => ((lookup0 c.wmatch p).getD []).contains n }
 
 /-! ### the acceptor -/
 
@@ -403,7 +426,14 @@ def handle (j : Json) : Json :=
     let ctx : Ctx := { inp := inp, par := par, obs := obsM, obsErr := obsErr, obsExit := obsExit, obsStarted := startedObs }
     let op := jstr j "op"
     let sim := simulate ctx (init inp) 100000
-    let simJ := Json.mkObj [("events", mkArr ((visOf { ctx with par := false } sim).map evJson)),
+    let xctx : Driver.DelayedX.Ctx :=
+      { inp := inp, par := par, obs := obsM, obsErr := obsErr, obsExit := obsExit, obsStarted := startedObs }
+    let simX := Driver.DelayedX.simulate xctx (DoitModel.DelayedX.init inp) 100000
+    let simJ := if c.x then
+        Json.mkObj [("events", mkArr ((Driver.DelayedX.visOf { xctx with par := false } simX).map evJson)),
+                    ("err", Json.str (Driver.DelayedX.errStr simX.susp)), ("exit", toJson (DoitModel.DelayedX.exitCode simX)),
+                    ("susp", Json.str (reprStr simX.susp))]
+      else Json.mkObj [("events", mkArr ((visOf { ctx with par := false } sim).map evJson)),
                             ("err", Json.str (errStr sim.susp)), ("exit", toJson (exitCode sim)),
                             ("susp", Json.str (reprStr sim.susp))]
     if op == "simulate" then Json.mkObj [("model", simJ), ("selected", ofNats st.selected)] else
@@ -413,20 +443,37 @@ def handle (j : Json) : Json :=
       if nt.fileDep.length ≥ 2 then some nt.name else none).eraseDups).take 3
     let subsets : List (List Nat) := flipNames.foldl (fun acc x => acc ++ acc.map (x :: ·)) [[]]
     let tryOne (flip : List Nat) (bud : Nat) :=
-      let c' : Case := { c with makeTab := c.makeTab.map fun e =>
-        (e.1, e.2.1, e.2.2.map fun nt => if flip.contains nt.name then { nt with fileDep := nt.fileDep.reverse } else nt) }
+      let flipTab (tab : List (CId × Nat × List NewTask)) := tab.map fun e =>
+        (e.1, e.2.1, e.2.2.map fun nt => if flip.contains nt.name then { nt with fileDep := nt.fileDep.reverse } else nt)
+      let c' : Case := { c with makeTab := flipTab c.makeTab, makeTabX := flipTab c.makeTabX }
       let inp' := inputOf c' st
-      (dfs { ctx with inp := inp' } (init inp') []).run (bud, 0, "")
-    let (res, left, best, bestS) := subsets.foldl (fun (acc : Option Sys × Nat × Nat × String) flip =>
+      let names := (List.range 400)
+      if c.x then
+        let r := (Driver.DelayedX.dfs { xctx with inp := inp' } (DoitModel.DelayedX.init inp') []).run (bud, 0, "")
+        (r.1.map fun s => ((Driver.DelayedX.startedOf s).all (fun n => startedObs.contains n || s.running.contains n) &&
+                             startedObs.all ((Driver.DelayedX.startedOf s).contains ·),
+                           Driver.DelayedX.featureCounts inp' s names,
+                           DoitModel.DelayedX.startAfterOK (fun t => DoitModel.DelayedX.nodeDeps s t ++ DoitModel.DelayedX.nodeSetup s t)
+                             (DoitModel.DelayedX.nodeCalc s) s.events), r.2)
+      else
+        let r := (dfs { ctx with inp := inp' } (init inp') []).run (bud, 0, "")
+        (r.1.map fun s => ((startedOf s).all (fun n => startedObs.contains n || s.running.contains n) &&
+                             startedObs.all ((startedOf s).contains ·), ((0 : Nat), (0 : Nat), (0 : Nat), (0 : Nat)), true), r.2)
+    let (res, left, best, bestS) := subsets.foldl (fun (acc : Option (Bool × (Nat × Nat × Nat × Nat) × Bool) × Nat × Nat × String) flip =>
       match acc.1 with
       | some _ => acc
       | none =>
         let r := tryOne flip acc.2.1
         (r.1, r.2.1, max acc.2.2.1 r.2.2.1, if r.2.2.1 ≥ acc.2.2.1 then r.2.2.2 else acc.2.2.2)) (none, budget, 0, "")
     let startedOK := match res with
-      | some s => (startedOf s).all (fun n => startedObs.contains n || s.running.contains n) &&
-                  startedObs.all ((startedOf s).contains ·)
+      | some r => r.1
       | none => false
+    let feat := match res with
+      | some r => r.2.1
+      | none => (0, 0, 0, 0)
+    let xStartAfter := match res with
+      | some r => r.2.2
+      | none => true
     let deps := depsAll c st obsAll
     let tgt := targetOK c (some st) obsAll obsErr obsExit
     let evd := evaluatedOK c st obsAll obsErr obsExit
@@ -435,6 +482,10 @@ def handle (j : Json) : Json :=
       ("filter", Json.str "ok"),
       ("accept", boolJ (res.isSome && startedOK)),
       ("exhausted", boolJ (left == 0)),
+      ("x", boolJ c.x),
+      ("x_features", Json.mkObj [("setup_two_selects", toJson feat.1), ("setup_not_scheduled", toJson feat.2.1),
+                                 ("calc_processed", toJson feat.2.2.1), ("calc_delivered", toJson feat.2.2.2),
+                                 ("start_after_all", boolJ xStartAfter)]),
       ("visited", toJson (budget - left)),
       ("best_prefix", toJson best), ("best_state", Json.str bestS),
       ("model", simJ),
